@@ -338,6 +338,9 @@ OUTCOMES = {
     'disabled_script': (['>>> # SCRIPT', '>>> mark("{id}")'], 'disabled', True),
     'comment_only': (['>>> # just a comment'], 'skipped', False),
     # fails before any of its code has run: a directive that cannot be interpreted opens the doctest
+    # rejected only when the part is compiled; alone (nothing has run before) and after a part that ran
+    'fail_compile_first': (['>>> return 5'], 'failed', False),
+    'fail_compile_late': (['>>> mark("{id}")', '>>> print("a")', 'a', '>>> break'], 'failed', True),
     'fail_bad_directive': (['>>> # xdoctest: +REQUIRES(notatag_zz)', '>>> mark("{id}")'], 'failed', False),
     'fail_bad_directive_after_skip': (['>>> print("never")  # xdoctest: +SKIP', '>>> # a comment only',
                                        '>>> mark("{id}")  # xdoctest: +REQUIRES(module:too:many:parts)'], 'failed', False),
